@@ -46,7 +46,7 @@ def write_errors_to_yaml(container, yaml_doc):
             _err_val = _err_obj.error
 
         # -- collapse identical errors to one float
-        if np.allclose(_err_val[0], _err_val):
+        if np.all(_err_val == _err_val[0]):
             _err_val = float(_err_val[0])
         else:
             _err_val = _err_val.tolist()
